@@ -1,4 +1,4 @@
-(* GENERATED from Tree/InvProofsCreate.v by work/c03gen/gen.py: the same proof over NoOrphanP (no RootsOnly), see Tree/InvEBase.v *)
+(* GENERATED from Tree/InvProofsCreate.v by tools/c03_gen_invE.py: the same proof over NoOrphanP (no RootsOnly), see Tree/InvEBase.v *)
 (* Tree/InvProofsCreate.v — C03 proofs: create_sub_element(_at), create_named_sub_element(_at), get_or_create*,
    and the character-data primitive raw_set_character_data. *)
 From Coq Require Import PeanoNat Arith.
